@@ -721,6 +721,8 @@ def run_problem(ctx, rng, k, prob, tag):
     x2 = representable(x2, prob.xspelling + 3, prob, which2)
     if ctx.thorough:
         J2 = judge(ctx, prob, x2, which2, tag, fd=(k % 3 == 0), shift=3)
+        if J2 is not None:
+            ctx.reached("second-point-same-form-object")      # the same form object, judged in full at the second point
     else:
         J2 = prob.jac_hand(x2).toarray()
         if J1 is not None and second_call_in_quick(prob, k):
